@@ -138,7 +138,7 @@ def hllRun (d : HllD) (stims : List Stim) (toks : List String) (classify : Bool)
   let ends := (res.flatMap (·.1)).foldl (fun acc s => if acc.contains s then acc else s :: acc) []
   let exhausted := res.any (·.2.2)
   if !ends.isEmpty then
-    let d' := { d with sts := (ends.take 256).map fun s => (applyStim s .settle).1 }
+    let d' := { d with sts := ends.map fun s => (applyStim s .settle).1 }
     if classify then
       let seqOk := d.sts.any fun s => !(hllExplore d true 200000 s stims toks).1.isEmpty
       (d', if seqOk then "ok seq" else "ok nonseq")
